@@ -95,6 +95,11 @@ def run(ck):
     except AnchorMissing:
         pass
     common.import_results(ck, C01, "5", None, "2")
+    from props import C06, C07, C05
+
+    common.import_results(ck, C06, "2", "dispatch_events", "2")
+    common.import_results(ck, C07, "2", None, "2")
+    common.import_results(ck, C05, "5", "Timer", "2")
 
     # ---- clause 3: nobody returns holding a guard; no nested incompatible borrow -----------------------
     nret = 0
